@@ -278,7 +278,11 @@ def run(ctx, scratch):
             if rng.random() < (0.5 if sym else 0.15):
                 bflags.append(False if sym or rng.random() < 0.5 else True)
             for d in bflags:
-                add('break', fam, 'breakc', dict(m=m, root=root, directed=d), **base)
+                args = dict(m=m, root=root, directed=d)
+                starts = sorted({i for (i, j) in E})
+                if starts and rng.random() < 0.2:
+                    args['prior_root'] = rng.choice(starts)
+                add('break', fam, 'breakc', args, **base)
 
     # ---- exhaustive undirected graphs with optional self-loops
     def und_with_loops(n, loops=True):
